@@ -427,15 +427,14 @@ func c07RunFSCase(in c07In, base string, idx int) c07FSResult {
 	o2, timedOut := fw.runLocal(c06Hop{Op: "manage", Orc: in.Rec}, true)
 	wait := time.Since(t0)
 	twin := <-twinCh
-	if timedOut {
-		return c07FSResult{skip: fmt.Sprintf("recovery timed out after 90 s: variant=%s crash=%d err=%s log=%v", in.Variant, in.Plan.Crash, o2.Err, o2.Log)}
-	}
+	// a recovery that cannot get the dead holder's lock within 90 s (FileStorage's staleness rule
+	// frees it after about 10 s) is not skipped: it is the permanent error the property excludes
 	class, window := c07Classify(in, o1)
 	e := c07Encode(fw.c06World, in, s0, o1, o2, twin)
 	r := c07FSResult{}
 	r.hist = []string{"fs:variant=" + in.Variant, "fs:window=" + window, fmt.Sprintf("fs:faulted_res=%d", o1.Res),
 		fmt.Sprintf("fs:recover_res=%d", o2.Res), fmt.Sprintf("fs:twin_ok=%v", twin), "fs:class=" + class,
-		fmt.Sprintf("fs:recovery_waited_for_stale_lock=%v", wait > 5*time.Second), "backend=filestorage-sigkill"}
+		fmt.Sprintf("fs:recovery_waited_for_stale_lock=%v", wait > 5*time.Second), "backend=filestorage-sigkill", fmt.Sprintf("fs:recovery_timed_out=%v", timedOut)}
 	key, _ := json.Marshal([]any{"fs", in.Variant, in.Plan})
 	r.c = emit.Case{
 		Desc: map[string]any{"class": class, "variant": in.Variant, "kind": in.Kind, "window": window,
